@@ -244,7 +244,7 @@ def base_outcome(scn, res):
     c = scn['client']
     probes = {}
     for kname, v in res.counters.items():
-        if kname.startswith('peer_') or kname in ('lock_contended', 'sleep', 'line_preempt') or kname.startswith('connect_'):
+        if kname.startswith('peer_') or kname in ('lock_contended', 'sleep', 'line_preempt', 'local_echo', 'spin_fast_forward') or kname.startswith('connect_'):
             probes[kname] = v
     return {'violations': [], 'inconclusive': False, 'nontrivial': True, 'digest': res.digest,
             'shape': res.shape + ':' + c['kind'] + ':' + c['framing'], 'vtime': res.vtime, 'steps': res.steps,
